@@ -226,6 +226,41 @@ class WorkerFacts:
         self.cb_nodes = {id(e.node) for e in self.cb}
         self.get_nodes = {id(e.node) for e in self.get}
 
+    def iterations(self):
+        """(continuing iterations, stopping iterations/exits, flag_ok): the ways through one pass of the worker loop."""
+        w, lp = self.w, self.loop_node
+        cont = [e for e in w.events if e.kind == "loopend" and e.loop.node is lp]
+        exits = [e for e in w.events if (e.kind == "loopbreak" and e.loop.node is lp) or (e.kind == "ret" and e.loops and e.loops[0].node is lp)]
+        # a loop governed by a flag (`while not done:` / `while running:`): an iteration that ends with the flag set so that the test
+        # fails is a stop, every other iteration continues; the flag must hold the continuing value when the loop is entered
+        t = lp.test if isinstance(lp, ast.While) else None
+        flag, stop_value = None, None
+        if isinstance(t, ast.UnaryOp) and isinstance(t.op, ast.Not) and isinstance(t.operand, ast.Name):
+            flag, stop_value = t.operand.id, True
+        elif isinstance(t, ast.Name):
+            flag, stop_value = t.id, False
+
+        def flag_value(env):
+            v = env.get(flag)
+            c = getattr(v, "cond", None)
+            if c == ("true",):
+                return True
+            if c == ("false",):
+                return False
+            return None
+        flag_ok = None
+        if flag is not None:
+            ls = [x for x in w.events if x.kind == "loopstart" and x.node is lp]
+            entry = flag_value(ls[0].envsnap) if ls else None
+            stops = [e for e in cont if flag_value(e.env) is stop_value]
+            unknown = [e for e in cont if flag_value(e.env) is None and any(
+                x.kind == "assign" and x.name == flag for x in on_path_h(w.events, e) if x.loops and x.loops[0] is e.loops[0])]
+            flag_ok = entry is (not stop_value) and not unknown
+            if flag_ok:
+                exits = exits + stops
+                cont = [e for e in cont if e not in stops]
+        return cont, exits, flag_ok
+
     def in_loop(self, ev):
         return bool(ev.loops) and ev.loops[0].node is self.loop_node
 
@@ -297,8 +332,8 @@ def rule_once(ctx):
            "the worker attaches one local view per descriptor, in the order given (alphabetical cms, hh, hll)", oka)
     # (c) every way through one iteration: exactly one get first; a real item is processed exactly once and the loop goes on;
     #     the pill is not processed and ends the loop
-    cont = [e for e in w.events if e.kind == "loopend" and e.loop.node is lp]
-    exits = [e for e in w.events if (e.kind == "loopbreak" and e.loop.node is lp) or (e.kind == "ret" and e.loops and e.loops[0].node is lp)]
+    cont, exits, flag_ok = W.iterations()
+    t = lp.test if isinstance(lp, ast.While) else None
     res = []
     for e in cont:
         evs = [x for x in on_path_h(w.events, e) if x.loops and x.loops[0] is e.loops[0]]
@@ -322,9 +357,8 @@ def rule_once(ctx):
     if not exits:
         res.append((False, "the worker never returns", []))
     agg(ctx, "once", wk, exits[0].node if exits else lp, "stop on the poison pill", "None ends the worker on every path, and only None does", res)
-    # (d) the loop has no other way out (its own test never ends it)
-    t = lp.test if isinstance(lp, ast.While) else None
-    always = isinstance(t, ast.Constant) and bool(t.value) is True
+    # (d) the loop has no other way out: `while True`, or a flag that only a stop iteration (classified above) sets
+    always = (isinstance(t, ast.Constant) and bool(t.value) is True) or bool(flag_ok)
     ctx.ob("once", wk, lp, "while %s" % (unparse(t, 30) if t is not None else "?"), "the loop ends only through the pill", bool(always),
            "" if always else "the loop condition can end the loop without a pill having been received")
     # (e) the get is the first thing an iteration does (nothing is processed before an item is taken)
@@ -354,7 +388,7 @@ def rule_nrecs(ctx):
         ctx.ob("nrecs", wk, lp, "n_records += n_recs", "the worker accumulates the callback's return value", False, "no accumulation of the callback's result found")
         return
     accname = accs[0].name
-    cont = [e for e in w.events if e.kind == "loopend" and e.loop.node is lp]
+    cont, _exits, _ = W.iterations()
     res = []
     for e in cont:
         evs = [x for x in on_path(w.events, e) if x.kind == "assign" and x.name == accname and x.loops and x.loops[0] is e.loops[0]]
@@ -384,11 +418,21 @@ def rule_nrecs(ctx):
     star = [a for a in W.cb[0].node.args if isinstance(a, ast.Starred)]
     lname = star[0].value.id if star and isinstance(star[0].value, ast.Name) else None
     rets = [e for e in w.events if e.kind == "ret"]
+    _cont, stops, _ = W.iterations()
+    stop_iters = [e for e in stops if e.kind == "loopend"]       # flag-governed loop: the iteration that set the flag
+
+    def passes(ev):
+        return [x for x in on_path_h(w.events, ev) if x.kind == "loopstart" and isinstance(x.node, ast.For) and isinstance(x.node.iter, ast.Name)
+                and x.node.iter.id == lname and any(f.loops and f.loops[-1] is x.loop for f in fin)]
     res = []
     for r in rets:
-        pre = on_path_h(w.events, r)
-        fl = [x for x in pre if x.kind == "loopstart" and isinstance(x.node, ast.For) and isinstance(x.node.iter, ast.Name) and x.node.iter.id == lname
-              and any(f.loops and f.loops[-1] is x.loop for f in fin)]
+        if stop_iters and not r.loops:
+            # the return is reached through the loop test: the history is (a stopping iteration) + (what follows the loop)
+            for s_ in stop_iters:
+                n_ = len(passes(s_)) + len([x for x in passes(r) if not x.loops])
+                res.append((n_ == 1, "one pass over the local sketches adds the count" if n_ == 1 else "%d finalisation passes before the worker returns" % n_, fact_strs(r)))
+            continue
+        fl = passes(r)
         okk = len(fl) == 1
         res.append((okk, "one pass over the local sketches adds the count" if okk else "%d finalisation passes on a path that returns" % len(fl), fact_strs(r)))
     agg(ctx, "nrecs", wk, fin[0].node if fin else wk.node, "for local_sketch in local_sketches", "every local sketch receives the count exactly once before the worker returns", res or [(False, "the worker never returns", [])])
@@ -442,7 +486,7 @@ def rule_cb_guard(ctx):
     esc = [n for h in t.handlers for s in h.body for n in walk_no_nested(s) if isinstance(n, (ast.Raise, ast.Return, ast.Break))]
     ctx.ob("cb-guard", wk, esc[0] if esc else t, "handler body", "the handler neither re-raises nor leaves the loop: the other items are still processed", not esc)
     # the failure path: the iteration still ends normally (loop continues) having added exactly 0 records
-    cont = [e for e in w.events if e.kind == "loopend" and e.loop.node is lp]
+    cont, _exits, _ = W.iterations()
     hpaths = [e for e in cont if any((isinstance(pol, tuple) and pol and pol[0] == "handler") or pol == "handler" for (_, pol, _) in e.path)]
     accs = [e for e in w.events if e.kind == "assign" and e.aug is not None and isinstance(e.aug[0], ast.Add) and W.in_loop(e)
             and any(e.aug[2] is getattr(c, "result", None) for c in W.cb)]
